@@ -7,7 +7,7 @@ from gen import c05
 
 ASSUMPTIONS = c05.ASSUMPTIONS + [
     "Url::scheme() of the configured endpoint is an oracle reported by the harness (URLINFO); the url crate lower-cases schemes",
-    "the conditionally-set absent endpoint (missing-URL error) is exercised through the C11 typestate driver (case 'R?-'), not duplicated here",
+    "the conditionally-set absent endpoint (missing-URL error) is exercised through the C11 typestate driver binary on all histories of the revocation endpoint up to length 3",
 ]
 
 
@@ -16,7 +16,7 @@ def gen(tier, rng):
     # request side
     i = 0
     for url in R.REVOKE_ENDPOINTS:
-        for tk, hint in (("A", None), ("R", None), ("C", None), ("C", "custom hint"), ("C", "access_token"), ("C", "")):
+        for tk, hint in (("A", None), ("R", None), ("AF", None), ("AFR", None), ("RF", None), ("RFR", None), ("C", None), ("C", "custom hint"), ("C", "access_token"), ("C", "")):
             for auth in "BR":
                 for secret in (None, "bbb"):
                     i += 1
@@ -44,9 +44,37 @@ def gen(tier, rng):
     return out
 
 
+HARNESS_BIN = "harness_cfg"
+
+
+def cfg_cases():
+    """configuration sequences on the revocation endpoint only (set / conditionally present /
+    conditionally absent, https and http), through the C11 typestate driver: the missing-URL and
+    insecure-URL errors after ANY history of the endpoint"""
+    import itertools
+    from gen import c11
+    ops = [("set", 0), ("set", 1), ("some", 0), ("some", 1), ("none", 0)]
+    out = []
+    for n in (1, 2, 3):
+        for seq in itertools.product(ops, repeat=n):
+            toks = [c11.op_token(k, "R", k=i) for (k, i) in seq] + ["S=" + C.tb("bbb")]
+            out.append((c11.line(toks), "revocation-endpoint-history"))
+    return out
+
+
 def run(tier, rng, C):
+    import os
     cases = gen(tier, rng)
     v, stats = C.differential("C13", cases, nontrivial=lambda l, o: o.startswith("ok ") or o.startswith("server ") or o.startswith("insecure"))
+    cc = cfg_cases()
+    C.IMPL_BIN[0] = os.path.join(C.TARGET, "debug", "harness_cfg")
+    try:
+        v2, st2 = C.differential("C13", cc, nontrivial=lambda l, o: True)
+    finally:
+        C.IMPL_BIN[0] = C.HARNESS_BIN
+    v += v2
+    stats = C.merge_stats(stats, st2)
+    stats["samples"] = stats["samples"][:8]
     stats["rule"] = ("request side: 14 revocation URLs (https in three letter-cases, http, ftp, ws, wss, httpss, https+x, shttp, file, single-slash https, with fragment, unbuildable 70 kB) "
                      "x {access, refresh, custom without hint, custom with hints} x both auth types x secret on/off through the real revoke_token, observing insecure-URL error vs captured request and the HTTP call count; "
                      "status side: every status 100..=599 x rotating 10 bodies x 4 Content-Types + full product on 9 statuses + random RFC 7009/6749 error documents; "
